@@ -160,7 +160,7 @@ func runBFS(r *ev.Run, c bfsCfg, out map[string]interface{}) bool {
 	r.Trace(res.Transitions)
 	r.Eval(res.Transitions)
 	complete := res.Complete
-	out[c.world+"/"+c.policy] = map[string]interface{}{"depth": c.depth, "max_block_events": c.maxBlock, "states": res.States,
+	out[fmt.Sprintf("%s/%s/depth%d/blocks%d", c.world, c.policy, c.depth, c.maxBlock)] = map[string]interface{}{"depth": c.depth, "max_block_events": c.maxBlock, "states": res.States,
 		"transitions": res.Transitions, "max_depth_reached": res.MaxDepth, "all_histories_up_to_depth_done": complete,
 		"successors_on_forked_pools": res.Forked, "successors_by_full_replay": res.Replayed}
 	if !complete {
@@ -660,7 +660,7 @@ func main() {
 	var cfgs []bfsCfg
 	if r.Thorough() {
 		cfgs = []bfsCfg{
-			{"main", "default", 5, 3}, {"main", "nopriority", 4, 2}, {"main", "rejectrbf", 4, 2},
+			{"main", "default", 5, 3}, {"main", "default", 6, 2}, {"main", "nopriority", 4, 2}, {"main", "rejectrbf", 4, 2},
 			{"main", "orphans0", 4, 2}, {"main", "orphans1", 4, 2}, {"main", "orphans2", 4, 2},
 			{"std", "standard", 5, 2}, {"std", "std-orphan1", 4, 2},
 		}
@@ -668,8 +668,16 @@ func main() {
 		cfgs = []bfsCfg{
 			{"main", "default", 4, 2}, {"main", "nopriority", 3, 1}, {"main", "rejectrbf", 3, 1},
 			{"main", "orphans0", 3, 1}, {"main", "orphans1", 3, 1}, {"main", "orphans2", 3, 1},
-			{"std", "standard", 3, 1}, {"std", "std-orphan1", 3, 1},
+			{"std", "standard", 3, 2}, {"std", "std-orphan1", 3, 1},
 		}
+	}
+	if v := os.Getenv("C10_DEV_CFG"); v != "" { // development aid only: world,policy,depth,maxBlock
+		var c bfsCfg
+		f := strings.Split(v, ",")
+		c.world, c.policy = f[0], f[1]
+		fmt.Sscan(f[2], &c.depth)
+		fmt.Sscan(f[3], &c.maxBlock)
+		cfgs = []bfsCfg{c}
 	}
 	per := map[string]interface{}{}
 	complete := true
